@@ -6,5 +6,10 @@ import "verifharness/spec"
 func All(tier string, seed int64) []*spec.Program {
 	out := Atlas()
 	out = append(out, Families(tier, seed)...)
+	n := 12
+	if tier == "thorough" {
+		n = 120
+	}
+	out = append(out, Random(n, seed)...)
 	return out
 }
